@@ -225,6 +225,11 @@ class Frames:
         for p in self.fn.hir["params"]:
             for b in hirq.pat_binds(p):
                 self.env.setdefault(b, BASE if b == "archive_offset" else (SIZE if SIZE_NAMES.search(b) else UNK))
+        # the function deals with an archive that may sit at a non-zero offset if it mentions the base anywhere, or is a method
+        # of a type that carries one
+        if any((x.get("k") in ("field",) and x.get("name") == "archive_offset") or (x.get("k") == "mcall" and x.get("m") == "archive_offset") or
+               (x.get("k") == "path" and x["res"].get("local") == "archive_offset") for x in hirq.walk(body)) or re.search(r"::(Archive|MutableArchive)::", self.fn.path):
+            self.saw_base = True
         # visit every expression once (nested blocks, matches, closures) — anything the structured walk above does not reach
         self.ev(body if body.get("k") == "block" else {"k": "block", "stmts": [], "e": body})
         for x in hirq.walk(body):
@@ -233,6 +238,27 @@ class Frames:
                     self.ev(a["body"])
             if x.get("k") == "letx":
                 self.bind(x["pat"], self.ev(x["init"]))
+        # local closures: parameters take the frame of the arguments they are called with (joined over call sites)
+        closures = {}
+        for l in hirq.find(body, "let"):
+            if l["pat"].get("k") == "bind" and l.get("init") is not None and hirq.strip(l["init"]).get("k") == "closure":
+                closures[l["pat"]["name"]] = hirq.strip(l["init"])
+        for c in hirq.walk(body):
+            if c.get("k") == "call" and c.get("flocal") in closures:
+                cl = closures[c["flocal"]]
+                pnames = []
+                for p_ in cl.get("params", []) or []:
+                    b = hirq.pat_binds(p_)
+                    pnames.append(b[0] if b else None)
+                for nm, a in zip(pnames, c.get("args") or []):
+                    if nm is None:
+                        continue
+                    v = self.ev(a)
+                    if v in (UNK, NEUTRAL):
+                        continue          # an argument of unknown frame says nothing; known frames decide
+                    self.env[nm] = v if nm not in self.env or self.env[nm] in (UNK, NEUTRAL) else self.join(self.env[nm], v)
+        for cl in closures.values():
+            self.ev(cl["body"])
         # seeks and key positions
         for c in hirq.calls(body):
             fnp = c.get("fn") or ""
